@@ -23,8 +23,9 @@ def emptySlot : Slot N := (.nil, .nil)
 def structBegin (count : Nat) : StructBuild N :=
   { slots := List.replicate (tablen (2 * count)) emptySlot, count := 0, length := count, proto := [] }
 
-/-- is this key refused by `janet_struct_put_ext` (`isnan` test)?  The model has no NaN (see `NumLike`): a number that
-    is not equal to itself plays that role. -/
+/-- is this key refused by `janet_struct_put_ext` (`janet_checktype(key, JANET_NUMBER) && isnan(…)`)?  `isnan x` is
+    `x != x` (`NumLike.isNaN`, Value/NaNNum.lean); false for every lawful (NaN-free) number type, true for the NaN patterns
+    of `F64`.  Only a NaN at top level is refused: a tuple holding NaN is accepted as a key. -/
 def isNaNKey : JVal N → Bool
   | .num n => !(NumLike.eq n n)
   | _ => false
@@ -67,6 +68,12 @@ def structPutExt (st : StructBuild N) (key value : JVal N) (replace : Bool) : St
     let (slots, added) := putLoop cap replace cap index 0 key value h st.slots
     { st with slots := slots, count := if added then st.count + 1 else st.count }
 
+/-- the early-return guards `structPutExt` implements in front of the probe, in order, and the fields its duplicate-key
+    branch writes under `replace` — compared on every run with the lists regenerated from struct.c
+    (`Gen.Value.structPutGuards`, `structDupWrites`) by `Props.C03.struct_put_guards_tie` -/
+def structPutExt.guards : List String := ["nilKeyOrValue", "nanKey", "full"]
+def structPutExt.dupWrites : List String := ["value"]
+
 /-- `janet_struct_put` -/
 def structPut (st : StructBuild N) (key value : JVal N) : StructBuild N := structPutExt st key value true
 
@@ -92,6 +99,11 @@ def structOfCount (count : Nat) (kvs : List (Slot N)) (proto : List (JVal N)) : 
   structEnd { st with proto := proto }
 
 def structOf (kvs : List (Slot N)) (proto : List (JVal N) := []) : JVal N := structOfCount kvs.length kvs proto
+
+/-- one level of `struct/proto-flatten` (struct.c cfun_struct_flatten): begin(`count`), `janet_struct_put_ext(…, 0)` in
+    order — an existing key KEEPS its value —, end -/
+def structOfCountKeep (count : Nat) (kvs : List (Slot N)) : JVal N :=
+  structEnd (kvs.foldl (fun acc kv => structPutExt acc kv.1 kv.2 false) (structBegin count))
 
 /-- `janet_struct_find`: slot index holding `key`, or of the first empty slot on its probe path -/
 def structFind (slots : List (Slot N)) (key : JVal N) : Option Nat :=
